@@ -728,6 +728,9 @@ def Engine.handlePubrec (e : Engine) (a : Ack) : Engine × Res :=
         match o.packet with
         | .publish p =>
           if p.qos = 2 then
+            -- a second PUBREC for the same delivery: its PUBREL is queued, being written or sent; it is not queued again
+            if o.pubrel.isSome then (e, .err "ProtocolError")
+            else
             if a.reasonCode ≥ 128 then
               -- the PUBREL of this operation is being written: completing it now would pull the packet from under the encoder
               if e.current == some opId || e.highQ.contains opId then (e, .err "ProtocolError")
